@@ -14,9 +14,14 @@ import (
 
 const destKey = "c17-dest"
 
-func runRequeuer(e *vlib.Env) vlib.Result {
+func runRequeuer(e *vlib.Env) vlib.Result { return runRequeuerOpt(e, false) }
+
+func runRequeuerOpt(e *vlib.Env, conc bool) vlib.Result {
 	r := e.R
 	res := vlib.Result{Class: "requeuer"}
+	if conc {
+		res.Class = "concurrent/requeuer"
+	}
 	ctl := vlib.NewCtl(r.Uint64(), 0.15, 30)
 	defer ctl.Uninstall()
 
@@ -46,8 +51,10 @@ func runRequeuer(e *vlib.Env) vlib.Result {
 	n := r.Range(3, 10)
 	prior := 0
 	classes := map[string]int{}
+	o := &odd{}
 	for i := 0; i < n; i++ {
 		m := genMsg(e, i, true)
+		o.uuid(r, m)
 		delete(m.Metadata, requeuer.RetriesKey)
 		delete(m.Metadata, destKey)
 		v, present, class := retriesValue(r)
@@ -83,9 +90,15 @@ func runRequeuer(e *vlib.Env) vlib.Result {
 		msgs = append(msgs, rm)
 	}
 
-	mon := newMonitor(true)
+	mon := newMonitor(!conc)
 	src := &vlib.Sub{Name: e.ID() + ".src"}
-	dst := &vlib.Pub{Name: e.ID() + ".dst", OnPublish: mon.onPublish, Script: mon.script}
+	rec := &vlib.Pub{Name: e.ID() + ".dst", OnPublish: mon.onPublish, Script: mon.script}
+	var dst message.Publisher = rec
+	var co *concOpts
+	if conc {
+		co = newConc(r, r.Range(2, 4), "publisher")
+		dst = &gatedPub{inner: rec, g: co.gate}
+	}
 	cfg := requeuer.Config{
 		Subscriber:     src,
 		SubscribeTopic: subTopic,
@@ -125,14 +138,20 @@ func runRequeuer(e *vlib.Env) vlib.Result {
 		comp.running = func() bool { return src.SubFor(subTopic) != nil }
 		comp.stop = cancel
 	}
-	drive(&res, comp, src, mon, []string{subTopic}, map[string][]*relayMsg{subTopic: msgs})
+	drive(&res, comp, src, mon, []string{subTopic}, map[string][]*relayMsg{subTopic: msgs}, co)
 	st := mon.judge(&res, msgs, judgeCfg{component: "Requeuer"})
-	fill(&res, st, mon, msgs, prior > 0)
+	fill(&res, st, mon, msgs, prior > 0 || o.any())
+	o.count(&res)
 	res.Count("prior_retries_present", prior)
 	for k, v := range classes {
 		res.Count("retries_"+k, v)
 	}
 	res.Sig = vlib.Sig("requeuer", topicMode, delay, ownRouter, len(destTopics), shapeSig(msgs))
+	if conc {
+		co.count(&res)
+		res.NonTrivial = st.relayed > 0 && co.multiRelease > 0
+		res.Sig = vlib.Sig(res.Sig, co.sig())
+	}
 	res.Hooks = ctl.Counts()
 	res.Sample = map[string]any{"component": "Requeuer", "config": map[string]any{"SubscribeTopic": subTopic, "GeneratePublishTopic": topicMode, "dest_topics": destTopics, "Delay": delay.String(), "external_router": ownRouter}, "messages": msgTrace(msgs, 8)}
 	if res.Failed() && res.Witness == nil {
